@@ -112,7 +112,6 @@ func c10IsKnownVer(v int16) bool {
 	return v == c10VerTars || v == c10VerTup || v == c10VerJSON
 }
 
-
 // ---------- TUP attribute maps (map<string, vector<byte>> at tag 0), written and read here with the codec primitives
 // only: the harness's requests and its reading of replies do not depend on the tree's tup package ----------
 type c10TupEntry struct {
